@@ -69,7 +69,7 @@ def parseOptSet (s : String) : Option OptSet :=
     | 'R' => pure { o with row := some x }
     | 'C' => pure { o with col := some x }
     | 'S' => pure { o with showCount := some (x != 0) }
-    | 'M' => pure { o with missing := some x }
+    | 'M' => pure { o with missing := some ((x + 2147483648) % 4294967296 - 2147483648) }   -- the harness passes rune(x): int32 truncation
     | 'T' => pure { o with trailingLF := some (x != 0) }
     | 'L' => pure { o with leadingDecimal := some (x != 0) }
     | 'B' => pure { o with bufSize := some x }
